@@ -13,6 +13,9 @@ import (
 )
 
 func main() {
+	if len(os.Args) >= 2 && os.Args[1] == "selftest" {
+		os.Args = append(os.Args, "-")
+	}
 	if len(os.Args) < 3 {
 		fmt.Fprintln(os.Stderr, "usage: vcheck run <property> [--tier quick|thorough] | vcheck replay <path>")
 		os.Exit(3)
@@ -44,6 +47,15 @@ func main() {
 		os.Exit(code)
 	case "replay":
 		os.Exit(checks.Replay(os.Args[2]))
+	case "selftest":
+		e, err := core.NewEnv("selftest", "quick")
+		if err != nil {
+			fmt.Fprintln(os.Stderr, err)
+			os.Exit(3)
+		}
+		code := checks.SelfTest(e)
+		e.Cleanup()
+		os.Exit(code)
 	default:
 		fmt.Fprintln(os.Stderr, "unknown command", os.Args[1])
 		os.Exit(3)
